@@ -163,7 +163,12 @@ def twin_of(case, impl_line):
     dropped = 0
     for c, o in zip(calls, per):
         f = o.split(" | ")[0].split()
-        if len(f) >= 5 and f[1] == "0" and f[3] == "0" and f[4] == "-":
+        # a refused EMIT_METADATA call stays in the twin: compress_stream fixes the size hint at the bytes seen so
+        # far (update_size_hint(0), as the reference encoder does) before process_metadata refuses the call, which
+        # legitimately shows in a later magic-number header and in the hasher choice; the property demands of a
+        # refused stream call that it neither corrupts the stream nor panics (decided by the decode verdict), and
+        # "no effect" of refused set-parameter calls
+        if len(f) >= 5 and f[1] == "0" and f[3] == "0" and f[4] == "-" and not c.startswith("m"):
             dropped += 1
             continue
         keep.append(c)
